@@ -4,6 +4,7 @@ package httpcheck
 import (
 	"bytes"
 	"context"
+	"encoding/base64"
 	"errors"
 	"fmt"
 	"math"
@@ -52,6 +53,9 @@ var fieldTypes = []tyc{
 	{&tm.Type{K: tm.MAP, Key: &tm.Type{K: tm.STRING}, Elem: &tm.Type{K: tm.I32}}, true},
 }
 
+// request fields also take binaries (base64 text in every source)
+var reqFieldTypes = append(append([]tyc{}, fieldTypes...), tyc{&tm.Type{K: tm.LIST, Elem: &tm.Type{K: tm.STRING, Bin: true}}, true}, tyc{&tm.Type{K: tm.STRING, Bin: true}, false})
+
 func genReqFields(t *rapid.T, n int, prefix string, allowInner bool) []tm.FieldDef {
 	var out []tm.FieldDef
 	for i := 0; i < n; i++ {
@@ -59,7 +63,7 @@ func genReqFields(t *rapid.T, n int, prefix string, allowInner bool) []tm.FieldD
 		if rapid.IntRange(0, 4).Draw(t, "bigID") == 0 {
 			fd.ID = int16(100 + i*37)
 		}
-		ty := fieldTypes[rapid.IntRange(0, len(fieldTypes)-1).Draw(t, "fieldType")]
+		ty := reqFieldTypes[rapid.IntRange(0, len(reqFieldTypes)-1).Draw(t, "fieldType")]
 		fd.T = ty.t
 		if allowInner && rapid.IntRange(0, 5).Draw(t, "innerField") == 0 {
 			fd.T = &tm.Type{K: tm.STRUCT, Ref: "Inner"}
@@ -68,7 +72,7 @@ func genReqFields(t *rapid.T, n int, prefix string, allowInner bool) []tm.FieldD
 		}
 		switch c := rapid.IntRange(0, 9).Draw(t, "annoClass"); {
 		case c < 3: // plain body field
-		case c == 3 && fd.T.K == tm.STRING:
+		case c == 3 && fd.T.K == tm.STRING && !fd.T.Bin:
 			fd.Annos = append(fd.Annos, tm.Anno{Key: []string{"api.raw_body", "api.raw_uri"}[rapid.IntRange(0, 1).Draw(t, "rawKind")], Val: ""})
 		default:
 			srcs := rapid.Permutation(reqSources).Draw(t, "sources")
@@ -164,6 +168,10 @@ func textFor(t *rapid.T, ty *tm.Type, allowJSON bool) string {
 	case tm.DOUBLE:
 		return []string{"0", "1.5", "-2.25", "100", "1e3", "0.001"}[rapid.IntRange(0, 5).Draw(t, "doubleText")]
 	case tm.STRING:
+		if ty.Bin {
+			// binaries travel as base64 text
+			return base64.StdEncoding.EncodeToString([]byte(safeTokens[rapid.IntRange(0, len(safeTokens)-1).Draw(t, "token")] + []string{"", "!", "\x00\xff"}[rapid.IntRange(0, 2).Draw(t, "binTail")]))
+		}
 		return safeTokens[rapid.IntRange(0, len(safeTokens)-1).Draw(t, "token")]
 	case tm.LIST:
 		n := rapid.IntRange(1, 3).Draw(t, "listN")
@@ -177,6 +185,7 @@ func textFor(t *rapid.T, ty *tm.Type, allowJSON bool) string {
 					parts[i] = strconv.Quote(parts[i])
 				}
 			}
+			_ = ty.Elem.Bin // (base64 text needs no escaping)
 			return "[" + strings.Join(parts, ",") + "]"
 		}
 		return strings.Join(parts, ",")
@@ -199,6 +208,9 @@ func jsonFor(t *rapid.T, ty *tm.Type, u *tm.Universe, depth int) string {
 		s := textFor(t, ty, false)
 		return s
 	case tm.STRING:
+		if ty.Bin {
+			return strconv.Quote(textFor(t, ty, false))
+		}
 		return strconv.Quote(safeTokens[rapid.IntRange(0, len(safeTokens)-1).Draw(t, "tokenJSON")] + []string{"", " b", "\"q\""}[rapid.IntRange(0, 2).Draw(t, "tokenTail")])
 	case tm.LIST:
 		n := rapid.IntRange(0, 3).Draw(t, "listNJSON")
@@ -478,6 +490,10 @@ func (m *model) fromText(ty *tm.Type, v string) (*tm.Value, error) {
 		f, err := strconv.ParseFloat(v, 64)
 		return &tm.Value{K: tm.DOUBLE, F: math.Float64bits(f)}, err
 	case tm.STRING:
+		if ty.Bin {
+			b, err := base64.StdEncoding.DecodeString(v)
+			return &tm.Value{K: tm.STRING, S: b}, err
+		}
 		return &tm.Value{K: tm.STRING, S: []byte(v)}, nil
 	case tm.LIST:
 		if isJSONText(v) {
@@ -532,6 +548,10 @@ func (m *model) fromJSON(ty *tm.Type, n *jmodel.Node, root bool) (*tm.Value, err
 	case tm.STRING:
 		if n.K != jmodel.Str {
 			return nil, fmt.Errorf("kind")
+		}
+		if ty.Bin {
+			b, err := base64.StdEncoding.DecodeString(n.Str)
+			return &tm.Value{K: tm.STRING, S: b}, err
 		}
 		return &tm.Value{K: tm.STRING, S: []byte(n.Str)}, nil
 	case tm.LIST:
@@ -958,7 +978,7 @@ func describe(cs ReqCase) string {
 func ReqProp(name string) pbt.Prop[ReqCase] {
 	return pbt.Prop[ReqCase]{
 		Name:  name,
-		Rule:  "generated request structs (scalar, list and map fields with any ordered list of api.query/path/header/cookie/form [+ api.body last], api.raw_body / api.raw_uri string fields, plain body fields, a nested struct with its own annotated fields, a struct-typed field annotated api.no_body_struct whose scalar members carry their own source lists, keys shared between fields, any requiredness) x requests built with the library's own HTTPRequest (any subset of sources populated; JSON body / form body / no body; body members in any order; the same request converted twice) x options (EnableHttpMapping, ReadHttpValueFallback, TracebackRequredOrRootFields, Write*Field); oracle = decision-table model: first listed source that has a value, converted by the field type; plain fields from the body; an api.no_body_struct field holds exactly its annotated members, each from its first source with a value, else zero; otherwise body fallback / traceback by key / zero filling / missing-field error as the options say; output decoded by the reference codec and compared field by field; non-trivial = mapping enabled",
+		Rule:  "generated request structs (scalar, binary, list (also of binaries, base64 text) and map fields with any ordered list of api.query/path/header/cookie/form [+ api.body last], api.raw_body / api.raw_uri string fields, plain body fields, a nested struct with its own annotated fields, a struct-typed field annotated api.no_body_struct whose scalar members carry their own source lists, keys shared between fields, any requiredness) x requests built with the library's own HTTPRequest (any subset of sources populated; JSON body / form body / no body; body members in any order; the same request converted twice) x options (EnableHttpMapping, ReadHttpValueFallback, TracebackRequredOrRootFields, Write*Field); oracle = decision-table model: first listed source that has a value, converted by the field type; plain fields from the body; an api.no_body_struct field holds exactly its annotated members, each from its first source with a value, else zero; otherwise body fallback / traceback by key / zero filling / missing-field error as the options say; output decoded by the reference codec and compared field by field; non-trivial = mapping enabled",
 		Gen:   genReq,
 		Check: checkReq,
 	}
